@@ -57,7 +57,7 @@ theorem ext_andThen (r r' : Res) (k k' : St → Res) (h : Ext r r') (hk : ∀ st
 /-! ### Iterations -/
 
 theorem iterAfterBody_oof (rb : Res) (h : rb.err = some .outOfFuel) :
-    iterAfterBody rb = .abort { rb.st with c := { rb.st.c with err := some .outOfFuel } } := by
+    iterAfterBody rb = .abort { rb.st with c := { rb.st.c with err := some .outOfFuel, brkD := rb.st.c.brkD - 1 } } := by
   unfold iterAfterBody
   simp [h, isSentinel]
 
@@ -303,7 +303,7 @@ theorem inclFinish_ext (s : St) (r r' : Res) (h : Ext r r') : Ext (inclFinish s 
   by_cases hoof : r.err = some .outOfFuel
   · exfalso
     unfold inclFinish at hne
-    simp only [hoof] at hne
+    simp only [hoof, beq_self_eq_true, Bool.or_true, if_true] at hne
     exact hne rfl
   · rw [h hoof]
 
